@@ -11,7 +11,7 @@ import (
 func init() {
 	register(&propDef{
 		ID:          "C01",
-		Explanation: "Decides, for ALL sites in the current source: every dynamic string that reaches an HTML text/attribute sink — in the runtime library (SSA classification of every written operand in packages templ, templ/runtime, templ/safehtml) and in every statement the generator can emit (GEM: emission paths of generator.go parsed as Go) — passes through html.EscapeString, or is a constant / safe alphabet / a listed trusted field; attribute-value sinks sit between matching literal quotes; templ.EscapeString is html.EscapeString. NOT decided: an HTML5 tokenizer's behaviour on the output (trusted base: html.EscapeString escapes & < > \" '), attribute names arriving as spread-map keys, user-constructed ComponentScript values.",
+		Explanation: "Decides, for ALL sites in the current source: every dynamic string that reaches an HTML text/attribute sink — in the runtime library (SSA classification of every written operand in packages templ, templ/runtime, templ/safehtml) and in every statement the generator can emit (GEM: emission paths of generator.go parsed as Go) — passes through html.EscapeString, or is a constant / safe alphabet / a listed trusted field; attribute-value sinks sit between matching literal quotes; templ.EscapeString is html.EscapeString; R6 the output buffer type hands every byte to its bufio.Writer and never writes to the underlying writer without flushing first (its forwarding methods are exempt from R1, so this is what keeps escaped text in the position it was escaped for). NOT decided: an HTML5 tokenizer's behaviour on the output (trusted base: html.EscapeString escapes & < > \" '), attribute names arriving as spread-map keys, user-constructed ComponentScript values.",
 		Assumptions: []string{"html.EscapeString escapes & < > \" ' and leaves everything else unchanged", "generated code is what generator.go emits (committed _templ.go files are covered separately in the thorough tier)"},
 		Trusted:     []string{"go/types", "x/tools go/packages, go/ssa", "html.EscapeString"},
 		Run:         runC01,
@@ -79,6 +79,7 @@ func runC01(c *Ctx) {
 	gSink(c, "C01.R2")
 	gQuote(c, "C01.R3")
 	escaperIdentity(c, f, "C01.R4")
+	bufferInOrder(c, "C01.R6")
 	if c.thorough() {
 		generatedSinks(c, "C01.R5")
 	}
